@@ -112,6 +112,27 @@ def run(chk, tier):
             chk.ok("R13.2", "parse_number_or_token|" + want)
         else:
             chk.bad("R13.2", "parse_number_or_token|" + want, "number scanner no longer converts with %s" % want, num.file)
+    # every numeric token the scanner builds carries the std parser's result for the scanned text - on every path, nothing in between
+    import mirq as _mq
+    qn_ = _mq.BodyQ(num)
+    TEXT = r"(?:p\d+|phi\([^()]*(?:\([^()]*\)[^()]*)*\)|str::trim_start_matches\(p\d+, \"0x\"\)|Deref::deref\(p\d+\)|String::as_str\(p\d+\))"
+    LIT_RX = {"FloatLit": r"^str::parse<f64>\(%s\)\.Ok\.0$" % TEXT,
+              "IntLit": r"^(?:TryFrom<i64<-u64>::try_from\()?(?:u64::from_str_radix\(%s, (?:10|16|phi\(10 \| 16\)|phi\(16 \| 10\))\)|str::parse<u64>\(%s\))\.Ok\.0(?:\)\.Ok\.0)?$" % (TEXT, TEXT),
+              "UIntLit": r"^(?:u64::from_str_radix\(%s, (?:10|16|phi\(10 \| 16\)|phi\(16 \| 10\))\)|str::parse<u64>\(%s\))\.Ok\.0$" % (TEXT, TEXT)}
+    seen_lit = set()
+    for i_, adt_, var_, s_ in qn_.aggregates(adt_suffix="tokens::Token"):
+        if var_ not in LIT_RX:
+            continue
+        seen_lit.add(var_)
+        ex_ = [_mq.expr_of(qn_, o_) for o_ in s_["rv"]["ops"]]
+        if len(ex_) == 1 and re.match(LIT_RX[var_], ex_[0]):
+            chk.ok("R13.2", "token payload|%s" % var_, ex_[0][:100])
+        else:
+            chk.bad("R13.2", "token payload|%s|%s" % (var_, ex_[0][:60] if ex_ else "?"), "a %s token is built from %s: a numeric literal must denote exactly what the std parser returns for its text "
+                                                   "(correctly rounded for doubles), on every path" % (var_, ex_), num.file)
+    for v_ in LIT_RX:
+        if v_ not in seen_lit:
+            chk.bad("R13.2", "token payload|%s" % v_, "the number scanner no longer builds %s tokens" % v_, num.file)
     hx = F.body("rscel::compiler::string_tokenizer::StringTokenizer::<'l>::extract_hex_val")
     c2 = common.callees_of(hx)
     if any(c.endswith("char::methods::<impl char>::from_u32") for c in c2) and not any("from_u32_unchecked" in c for c in c2):
@@ -159,6 +180,17 @@ def run(chk, tier):
                     chk.bad("R13.4", "%s|unknown escape" % root, "an escape character outside the table is accepted and denotes itself (`'a\\qb'` spells \"aqb\"): malformed escapes must be rejected with a syntax error" , "rscel/src/compiler/string_tokenizer.rs (%s)" % root)
                 elif selfpush:
                     chk.bad("R13.4", "%s|unknown escape" % root, "an escape character outside the table is accepted and denotes itself (`'a\\qb'` spells \"aqb\"): malformed escapes must be rejected with a syntax error", "rscel/src/compiler/string_tokenizer.rs (%s)" % root)
+                elif any(not g.startswith("error") for g in vals):
+                    # the one accepting range row is the octal escape: its first digit is 0..3 (three octal digits denote at most \\377)
+                    conds_ = sorted(ch.split("|", 1)[-1].split(";"))
+                    narrow_u8 = root == "parse_bytes_literal" and any(re.search(r"impl u8>::from_str_radix(<>)?$", c_) for c_ in common.callees_g(F.body(TK + root))) \
+                        and conds_[:1] == ["Le(48, next#1.Some.0)=1"] and conds_[1:] in (["Le(next#1.Some.0, %d)=1" % k_] for k_ in range(51, 56))
+                    # (a bytes escape is converted as a u8: from_str_radix itself rejects everything above \\377, whatever the first digit)
+                    if conds_ == ["Le(48, next#1.Some.0)=1", "Le(next#1.Some.0, 51)=1"] or narrow_u8:
+                        chk.ok("R13.4", "%s|octal first digit 0..3" % root, conds_)
+                    else:
+                        chk.bad("R13.4", "%s|octal first digit 0..3" % root, "an escape is accepted under the range test %s: an octal escape starts with 0..3 (\\000-\\377); "
+                                                                             "a wider range accepts \\400-\\777 as characters above U+00FF" % conds_, "rscel/src/compiler/string_tokenizer.rs (%s)" % root)
                 else:
                     chk.ok("R13.4", "%s|%s" % (root, ch[:60]), sorted(vals)[:3])
             else:
